@@ -50,6 +50,7 @@ func init() {
 			{ID: "C14-R25", Title: "the import root is absolute whenever it can be", Floor: 1, Run: theImportRootIsAbsoluteWheneverItCanBe},
 			{ID: "C14-R26", Title: "an option of the VM sets its field whatever the value is", Floor: 1, Run: vmOptionsSetWhatTheyAreGiven},
 			{ID: "C14-R27", Title: "strings in import statements are validated by the function that accepts them", Floor: 1, Run: stringsInImportStatementsAreValidated},
+			{ID: "C14-R28", Title: "what holds loaded code is forgotten with it", Floor: 1, Run: whatHoldsLoadedCodeIsForgottenWithIt},
 		},
 	})
 }
